@@ -53,9 +53,12 @@ SplinesOn(g, orders, rich) ==
 \* ways two grids can differ (C08)
 InsertAfter(g, k, x) == [i \in 1..(Len(g) + 1) |-> IF i <= k THEN g[i] ELSE IF i = k + 1 THEN x ELSE g[i - 1]]
 GridVariants(g) ==
-  LET n == Len(g) IN
-  {[g EXCEPT ![2] = RDiv(RAdd(g[1], g[2]), RTwo)]}          \* one point moved
-  \cup {[g EXCEPT ![n] = RAdd(g[n], ROne)]}                   \* last point moved (agrees on the rest)
+  LET n == Len(g)
+      \* point i moved: the first one down, the last one up, an inner one half way to its predecessor
+      Moved(i) == IF i = 1 THEN [g EXCEPT ![1] = RSub(g[1], ROne)]
+                  ELSE IF i = n THEN [g EXCEPT ![n] = RAdd(g[n], ROne)]
+                  ELSE [g EXCEPT ![i] = RDiv(RAdd(g[i - 1], g[i]), RTwo)]
+  IN {Moved(i) : i \in 1..n}                                 \* exactly one point moved, at every position
   \cup {InsertAfter(g, 0, RSub(g[1], ROne))}                  \* extra point in front
   \cup {InsertAfter(g, n, RAdd(g[n], ROne))}                  \* extra point at the back
   \cup {InsertAfter(g, 1, RDiv(RAdd(g[1], g[2]), RTwo))}      \* extra point inside
